@@ -234,7 +234,6 @@ VerdictCases ==
   {Plain("none", "-", "-", "-", "POST", "-"),                                   \* a case created by hand: no labels at all
    Plain("gen", "explicit", "positive", "-", "POST", "-"),                      \* an example of the document
    Plain("gen", "generate", "positive", "-", "POST", "-"),
-   Plain("gen", "coverage", "positive", "default", "POST", "-"),
    Plain("gen", "coverage", "positive", "value", "POST", "-"),
    Plain("gen", "coverage", "negative", "value", "POST", "body"),
    Plain("gen", "coverage", "negative", "missing-header", "POST", "-"),
@@ -244,7 +243,7 @@ VerdictCases ==
    Plain("gen", "coverage", "negative", "method", "OPTIONS", "-")}
   \cup {Plain("gen", "generate", "negative", "-", "POST", n) : n \in NegKinds}
 ProbeCases == {Plain("gen", "generate", "negative", "-", "POST", "body"), Plain("gen", "generate", "positive", "-", "POST", "-")}
-Secs == IF Thorough THEN {"header", "bearer", "basic", "query", "cookie"} ELSE {"header", "bearer", "basic", "query", "cookie"}
+Secs == {"header", "bearer", "basic", "query", "cookie"}
 SrcsOf(sec) == {"absent", "generated", "explicit"}
                  \cup (IF sec \in {"header", "bearer"} THEN {"explicit-lc"} ELSE {})     \* the same header, spelled in lower case
                  \cup (IF sec = "header" THEN {"explicit-override"} ELSE {})             \* --set-header instead of --header
